@@ -436,13 +436,15 @@ def _nested_none(Context):
     c = Context()
     c.set("h", lambda: [None, {"k": None}])
     c.set("n", lambda: None)
-    return c.eval("var v = h(); [v[0] === null, v[1].k === null, n() === undefined]")
+    c.set("d", lambda: {"a": None, "inner": {"c": None, "l": [None, {"e": None}]}, "t": (None, 1)})
+    return c.eval("var v = h(), w = d(); [v[0] === null, v[1].k === null, n() === undefined, w.a === null && w.inner.c === null && w.inner.l[0] === null && w.inner.l[1].e === null && w.t[0] === null,"
+                  " JSON.stringify(w) === '{\"a\":null,\"inner\":{\"c\":null,\"l\":[null,{\"e\":null}]},\"t\":[null,1]}']")
 
 
 PROBES_C11 = [
     ("cyclic-and-shared-input", _cyclic_input, "True True True"),
     ("tuple-input", _tuple_input, "[1,[2,3]]"),
     ("deep-nesting-is-a-JSError", _deep_nesting, "JSError JSError"),
-    ("nested-None-from-a-callable", _nested_none, [True, True, True]),
+    ("nested-None-from-a-callable", _nested_none, [True, True, True, True, True]),
 ]
 groups.register_probes("C11", PROBES_C11)
